@@ -246,6 +246,11 @@ func main() {
 	w("Definition previous_max_address_grind_attempts : N := %d.\n", params.PreviousMaxAddressGrindAttempts)
 	w("Definition max_grind_increase_fork_block : N := %s.\n", params.MaxGrindIncreaseForkBlock.String())
 	w("Definition max_qi_tx_data_length : N := %d.\n", params.MaxQiTxDataLength)
+	// fork regime of ProcessQiTx (wrapping falls through to the local UTXO before this prime terminus number; kQuai hold intervals)
+	w("Definition qi_wrapping_change_block : N := %d.\n", params.QiWrappingChangeBlock)
+	w("Definition kawpow_fork_block : N := %d.\n", params.KawPowForkBlock)
+	w("Definition sha_equivalent_difficulty_fork_block : N := %d.\n", params.ShaEquivalentDifficultyForkBlock)
+	w("Definition kquai_change_hold_interval : N := %d.\n", params.KQuaiChangeHoldInterval)
 	// zero-address conventions, evaluated on the linked code
 	ze := common.ZeroExternal.Bytes()
 	allZero := len(ze) == common.AddressLength
